@@ -121,12 +121,23 @@ func NewFastModularNetworkSolver(biasNeuronCount, inputNeuronCount, outputNeuron
 	for i := 0; i < len(connections); i++ {
 		crs := connections[i].SourceIndex
 		crt := connections[i].TargetIndex
-		// Holds outgoing nodes
-		fmm.adjacentList[crs] = append(fmm.adjacentList[crs], crt)
-		// Holds incoming nodes
-		fmm.reverseAdjacentList[crt] = append(fmm.reverseAdjacentList[crt], crs)
+		// Two links may join the same pair of neurons (they differ in the recurrence flag of their genes): the pair is
+		// listed once and the weights add up
+		known := false
+		for _, t := range fmm.adjacentList[crs] {
+			if t == crt {
+				known = true
+				break
+			}
+		}
+		if !known {
+			// Holds outgoing nodes
+			fmm.adjacentList[crs] = append(fmm.adjacentList[crs], crt)
+			// Holds incoming nodes
+			fmm.reverseAdjacentList[crt] = append(fmm.reverseAdjacentList[crt], crs)
+		}
 		// Holds link weight
-		fmm.adjacentMatrix[crs][crt] = connections[i].Weight
+		fmm.adjacentMatrix[crs][crt] += connections[i].Weight
 	}
 
 	return &fmm
